@@ -45,7 +45,7 @@ pub fn gen_c10(rng: &mut Rng, thorough: bool) -> History {
         layer_blend: BlendProfile::Common,
     };
     gen_scene(rng, &mut em, 0, &cfg);
-    em.finish(0, 0, 50_000_000, format!("c10 long={} clip={} layer={} nop={} restart={} resync={}", long, cfg.p_clip, cfg.p_layer, cfg.p_nop, cfg.p_restart, cfg.p_resync))
+    em.finish(0, 0, 2_000_000_000, format!("c10 long={} clip={} layer={} nop={} restart={} resync={}", long, cfg.p_clip, cfg.p_layer, cfg.p_nop, cfg.p_restart, cfg.p_resync))
 }
 
 pub fn run_c10(h: &History, st: &mut Stats) -> Outcome {
@@ -174,7 +174,7 @@ pub fn gen_c14(rng: &mut Rng, _thorough: bool) -> History {
         };
         em.push(0, op);
     }
-    em.finish(buggify, variant, 50_000_000, format!("c14 variant={:#x} buggify={:#x}", variant, buggify))
+    em.finish(buggify, variant, 2_000_000_000, format!("c14 variant={:#x} buggify={:#x}", variant, buggify))
 }
 
 fn c14_twin_op(op: &Op, variant: u32) -> Op {
@@ -288,7 +288,7 @@ pub fn gen_c11(rng: &mut Rng, _thorough: bool) -> History {
     let (w, h) = em.dims(0);
     em.push(0, Op::SetTransform(gen_transform(rng, w, h, false)));
     gen_scene(rng, &mut em, 0, &cfg);
-    em.finish(0, 0, 50_000_000, "c11".to_string())
+    em.finish(0, 0, 2_000_000_000, "c11".to_string())
 }
 
 fn has_curves(p: &PathSpec) -> bool {
